@@ -20,7 +20,7 @@ func runC07(c *Check, tier string) {
 	ruleR01d(c, "R07c")
 	ruleR07d(c)
 	ruleR07e(c)
-	ruleR07f(c)
+	ruleR07f(c, "R07f")
 }
 
 func fsCacheMethods(c *Check) []*ssa.Function {
@@ -448,8 +448,8 @@ func ruleR07e(c *Check) {
 }
 
 // R07f: no manufactured end-of-stream
-func ruleR07f(c *Check) {
-	c.Rule("R07f", "no first-party io.Reader implementation returns io.EOF that does not come from the reader it wraps (a manufactured EOF silently truncates a blob)", 0)
+func ruleR07f(c *Check, rule string) {
+	c.Rule(rule, "no first-party io.Reader implementation returns io.EOF that does not come from the reader it wraps (a manufactured EOF silently truncates a blob)", 0)
 	for _, fn := range c.P.Funcs {
 		if fn.Name() != "Read" || fn.Signature.Recv() == nil || fn.Signature.Params().Len() != 1 || fn.Signature.Results().Len() != 2 {
 			continue
@@ -470,7 +470,7 @@ func ruleR07f(c *Check) {
 		if at != nil {
 			pos = c.P.InstrPos(at)
 		}
-		c.Require(!bad, "R07f", "no-manufactured-eof/"+c.P.FuncName(fn), "errors returned by this Read come from the wrapped reader", "this Read returns a literal io.EOF: consumers (io.Copy into the cache) take it as a complete stream, so an early stop publishes truncated content under the full digest", pos)
+		c.Require(!bad, rule, "no-manufactured-eof/"+c.P.FuncName(fn), "errors returned by this Read come from the wrapped reader", "this Read returns a literal io.EOF: consumers (io.Copy into the cache) take it as a complete stream, so an early stop publishes truncated content under the full digest", pos)
 	}
 }
 
